@@ -30,7 +30,7 @@ def kernels(run: Run):
         if kind == "raise":
             return z3.IntVal(RAISE_NI if val == "NotImplementedError" else RAISE_OTHER)
         if isinstance(val, pyz3.FD):
-            return val.term
+            return pyz3.fd_index_term(val, rv, RAISE_OTHER)
         for k, m in enumerate(rv):
             if val is m:
                 return z3.IntVal(k)
